@@ -374,7 +374,8 @@ def project_text(ty, untyped):
 
 C12_SETUP = ["init %s I3" % hexs("a"), "init %s F4004000000000000" % hexs("b"), "init %s S%s" % (hexs("c"), hexs("xy")),
              "init %s B1" % hexs("x"), "init %s T(I1,I2)" % hexs("y"), "init %s E" % hexs("z"),
-             "setfn %s id" % hexs("f"), "setfn %s swap" % hexs("g"), "setfn %s fail:%s" % (hexs("h"), hexs("boom"))]
+             "setfn %s id" % hexs("f"), "setfn %s swap" % hexs("g"), "setfn %s fail:%s" % (hexs("h"), hexs("boom")),
+             "setfn %s needfloat" % hexs("nf"), "setfn %s neednumber" % hexs("nn")]
 C12_STRINGS = ["a = 1; a", "1", "1.5", '"s"', "true", "(1,2)", "()", "", "a", "b", "c", "x", "y", "z", "1 +", ")", "(",
                "a += 1", "a + b", "f(a)", "g(1,2)", "h(1)", "a = 5", "q = 1; q", "q", "9223372036854775807", "2^62",
                "1/0", "a; b; c", "a,b", "y == (1,2)", "c + \"z\"", "!x", "-a", "\"", "1e400", "0x10", "a = \"s\"",
@@ -383,22 +384,31 @@ C12_STRINGS = ["a = 1; a", "1", "1.5", '"s"', "true", "(1,2)", "()", "", "a", "b
                # strings a wrapper might be tempted to pre-process or to parse by itself
                "+5", "-5", " 7 ", "\t7\n", "-9223372036854775808", "9223372036854775808", "+1.5", "-0.0", " true ", "TRUE", "007",
                "1_000", "0x10 ", "-0x10", "1e3", "+1e3", "inf", "-inf", "nan", " \"s\" ", "\"\"", "()", " ( ) ", "(1,)", "1,", "(,)",
-               "5;", "5 ;", ";5", " ", "\n", "\u3000", "1 // c", "/* c */ 1", "true ", "- 5", "--5", "!true", "! true"]
+               "5;", "5 ;", ";5", " ", "\n", "\u3000", "1 // c", "/* c */ 1", "true ", "- 5", "--5", "!true", "! true",
+               # user functions answering with the typed-accessor errors a wrapper might confuse with its own
+               "nf(1)", "nf(1.5)", "nf(a)", "nf(b)", "nf(c)", "nn(c)", "nn(a)", "nf a", "nf(1) + 1", "nf(x)", "nn(y)", "nf(())"]
+# consecutive evaluations of strings that differ only in separators inside or between tokens: each is evaluated on its own
+C12_PAIRS = [('"a b" + "c"', '"ab" + "c"'), ("1 2", "12"), ("a b", "ab"), ("1 + 2", "1+2"), ("12", "1 2"), ('"x"', '" x"'),
+             ("1 - 1", "1 -1"), ("a = 1; a", "a=1;a"), ("1\n2", "12"), ("tr ue", "true"), ("true", "tr ue"), ("1 .5", "1.5"), ("1.5", "1 .5"),
+             ("3", "3"), ("a", "a"), ('"q"', '"q" '), ("1 /* c */ 2", "12"), ("0x1 0", "0x10"), ("! true", "!true"), ("= =", "==")]
 
 
-def c12_case(kind, setup, src):
+def c12_case(kind, setup, src, then=None):
+    """all entry points on `src`; with `then`, the same on a second source in the same process straight afterwards"""
     ops = list(setup)
     codes = []
-    for lvl in "sn":
-        for mode in "frm":
-            if mode == "m" and kind in ("E", "EB"):
-                continue
-            for ty in TYPES:
-                code = lvl + mode + ty
-                codes.append(code)
-                ops.append("evc %s %s" % (code, hexs(src)))
-    ops.append("evc build %s" % hexs(src))
-    return G.script(kind, ops), {"kind": "all-entries", "src": src, "ctx": kind, "codes": codes, "nsetup": len(setup)}
+    for k, s1 in enumerate([src] if then is None else [src, then]):
+        for lvl in "sn":
+            for mode in "frm":
+                if mode == "m" and kind in ("E", "EB"):
+                    continue
+                for ty in TYPES:
+                    code = lvl + mode + ty
+                    if k == 0:
+                        codes.append(code)
+                    ops.append("evc %s %s" % (code, hexs(s1)))
+        ops.append("evc build %s" % hexs(s1))
+    return G.script(kind, ops), {"kind": "all-entries", "src": src, "then": then, "ctx": kind, "codes": codes, "nsetup": len(setup)}
 
 
 def c12_gen(tier, rng):
@@ -418,6 +428,14 @@ def c12_gen(tier, rng):
         kind = rng.choice(["H", "H", "H", "N", "E", "EB"])
         setup = C12_SETUP if kind in ("H", "N") else []
         cases.append(c12_case(kind, setup, s))
+    for s1, s2 in C12_PAIRS:
+        for kind in ("H", "EB"):
+            cases.append(c12_case(kind, C12_SETUP if kind == "H" else [], s1, then=s2))
+    for _ in range(n // 8):     # a generated program, then the same tokens rendered with other separators, then (thorough) a neighbour
+        raw = G.rand_expr(rng, rng.randint(1, 3))
+        toks = G.flatten(G.parenthesize(raw))
+        cases.append(c12_case("H", C12_SETUP, G.render(toks, rng, "space"), then=G.render(toks, rng, "space")))
+        cases.append(c12_case("H", C12_SETUP, G.render(toks, None, "space"), then="".join(toks)))
     return cases
 
 
@@ -427,21 +445,27 @@ def c12_oracle(case, out, model_out):
         return None
     if out.startswith("PANIC"):
         return "panic: " + out
-    steps = step_outputs(out)[m["nsetup"]:]
+    allsteps = step_outputs(out)[m["nsetup"]:]
     codes = m["codes"]
-    res = dict(zip(codes, steps))
-    build = steps[len(codes)] if len(steps) > len(codes) else None
-    for code in codes:
-        lvl, mode, ty = code
-        base = res.get("s" + mode + "v")
-        want = project_text(ty, base)
-        if res[code] != want:
-            return "entry point %s on %r in context %s: returned %s, the projection of the untyped result %s is %s" % (code, m["src"], m["ctx"], res[code], base, want)
-    if build is not None and build.startswith("ERR"):
+    for k, src in enumerate([m["src"]] if m.get("then") is None else [m["src"], m["then"]]):
+        steps = allsteps[k * (len(codes) + 1):(k + 1) * (len(codes) + 1)]
+        after = "" if k == 0 else " (evaluated straight after %r)" % m["src"]
+        res = dict(zip(codes, steps))
+        build = steps[len(codes)] if len(steps) > len(codes) else None
+        # the majority answer among the untyped entries of one context mode is the reference: a single deviating entry is named
         for code in codes:
-            if res[code] != build:
-                return "build_operator_tree fails with %s but entry point %s returns %s on %r" % (build, code, res[code], m["src"])
-    # context-free forms = mutable forms on a fresh empty HashMapContext
+            lvl, mode, ty = code
+            base = res.get("s" + mode + "v")
+            other = res.get("n" + mode + "v")
+            if base != other:
+                return "string-level and tree-level untyped entry points disagree on %r%s in context %s (%s): %s vs %s" % (src, after, m["ctx"], mode, base, other)
+            want = project_text(ty, base)
+            if res[code] != want:
+                return "entry point %s on %r%s in context %s: returned %s, the projection of the untyped result %s is %s" % (code, src, after, m["ctx"], res[code], base, want)
+        if build is not None and build.startswith("ERR"):
+            for code in codes:
+                if res[code] != build:
+                    return "build_operator_tree fails with %s but entry point %s returns %s on %r%s" % (build, code, res[code], src, after)
     return None
 
 
@@ -624,6 +648,8 @@ def c05_value_case(rng):
     want_ctx = ",".join("%s=I%d" % (hexs(k), env[k]) for k in sorted(env, key=hexs))
     want_log = ",".join("%s(I%d)" % (hexs("rec"), n) for n in log)
     entry = rng.choice(["srv", "nrv"]) if readonly else rng.choice(["smv", "nmv"])
+    if rng.random() < 0.5:   # the typed entry point of the result's own type: same evaluation, same effects
+        entry = entry[:2] + {"T": "t", "E": "e", "I": "i"}[v[0]]
     return (G.script("H", ["setfn %s id" % hexs("rec"), "ev %s %s" % (entry, hexs(src))]),
             {"kind": "seq-value", "src": src, "entry": entry, "want": "OK " + value_text(v),
              "want_tail": "CTX{%s;off=0;fns=%s} LOG[%s]" % (want_ctx, hexs("rec"), want_log)})
@@ -1185,15 +1211,21 @@ def ref_binop(op, a, b):
         if a[0] == "I" and b[0] == "I":
             return ("I", a[1] + b[1])
         raise Stop("WrongTypeCombination")
-    if op in ("-", "*", "/"):
+    if op in ("-", "*", "/", "%", "^"):
         for v in (a, b):
             if v[0] not in "IF":
                 raise Stop("ExpectedNumber")
         x, y = a[1], b[1]
+        if op == "^":
+            return ("F", 0)     # always a float; only its type is ever observable here (assigning it to an int variable fails)
         if op == "/":
             if y == 0:
                 raise Stop("DivisionError")
             return ("I", trunc_div(x, y))
+        if op == "%":
+            if y == 0:
+                raise Stop("ModulationError")
+            return ("I", x - y * trunc_div(x, y))
         return ("I", x - y if op == "-" else x * y)
     raise ValueError(op)
 
@@ -1221,7 +1253,7 @@ def c08_rand_expr(r, depth, ty=None):
         return ("call", r.choice(["rec", "rec", "boom"] if r.random() < 0.9 else sorted(C08_FUNS)), c08_rand_expr(r, depth - 1, ty))
     if k < 0.2:
         x = {"I": r.choice(["p", "u"]), "B": r.choice(["q", "w"]), "T": "t"}[ty]
-        op = {"I": r.choice(["=", "+=", "-=", "*="]), "B": r.choice(["=", "&&=", "||="]), "T": "="}[ty]
+        op = {"I": r.choice(["=", "+=", "-=", "*=", "=", "+=", "-=", "*=", "/=", "%=", "^="]), "B": r.choice(["=", "&&=", "||="]), "T": "="}[ty]
         return ("paren", ("chain", [("asg", op, x, c08_rand_expr(r, depth - 1, ty)), ("var", x)]))
     if k < 0.27:
         return ("paren", ("chain", [c08_rand_expr(r, depth - 1) if r.random() < 0.9 else None for _ in range(r.randint(1, 2))] + [c08_rand_expr(r, depth - 1, ty)]))
@@ -1304,8 +1336,10 @@ def c08_gen(tier, rng):
         ro = rng.random() < 0.3
         want = ref_run(e, ro)
         lvl = rng.choice("sn")
-        cases.append((G.script("H", c08_setup() + ["ev %s%sv %s" % (lvl, "r" if ro else "m", hexs(src))]),
-                      {"kind": "effects", "src": src, "want": list(want), "readonly": ro}))
+        ty = rng.choice("vvvvvnnibte")    # typed entry points evaluate exactly once too; their result is the projection
+        want = (strip_payload(project_text(ty, want[0])), want[1], want[2])
+        cases.append((G.script("H", c08_setup() + ["ev %s%s%s %s" % (lvl, "r" if ro else "m", ty, hexs(src))]),
+                      {"kind": "effects", "src": src, "want": list(want), "readonly": ro, "entry": lvl + ("r" if ro else "m") + ty}))
     for src in ["false && rec(true)", "true || rec(false)", "false && (1/0 == 1)", "(rec(1), u = 5, 1/0, rec(2), u = 6)",
                 "p += (p = 10; 1); p", "rec(1) + boom(2) * rec(3)", "u = 1; (1 / 0) == (u = 2); u = 3"]:
         cases.append((G.script("H", c08_setup() + ["ev smv " + hexs(src)]), {"kind": "effects-fixed", "src": src}))
@@ -1319,7 +1353,7 @@ def c08_oracle(case, out, model_out):
     got = triple_of(out, 0)
     want = tuple(m["want"])
     if got != want:
-        return "program %r (%s context): (result, variables, call log) = %s, the reference interpreter (strict left-to-right, first error wins) gives %s" % (m["src"], "shared" if m.get("readonly") else "mutable", got, want)
+        return "program %r (%s context, entry %s): (result, variables, call log) = %s, the reference interpreter (strict left-to-right, first error wins) gives %s" % (m["src"], "shared" if m.get("readonly") else "mutable", m.get("entry"), got, want)
     return None
 
 
@@ -1360,8 +1394,16 @@ def c11_gen(tier, rng):
         src = G.render(G.flatten(e), None, "space")
         kind = rng.choice(["H", "N"])
         extra = rng.choice([[], [], ["off 1"], ["setfn %s konst:I777" % hexs(rng.choice(["min", "len", "typeof"]))], ["off 1", "setfn %s id" % hexs("max")]])
-        ops = C12_SETUP + extra + ["dump", "evc smv " + hexs(src), "ev srv " + hexs(src), "dump"]
-        cases.append((G.script(kind, ops), {"kind": "agree", "src": src, "ctx": kind}))
+        ty = rng.choice("vvvvsifnbte")
+        lv = rng.choice("sn")
+        ops = C12_SETUP + extra + ["dump", "evc %sm%s %s" % (lv, ty, hexs(src)), "ev %sr%s %s" % (lv, ty, hexs(src)), "dump"]
+        cases.append((G.script(kind, ops), {"kind": "agree", "src": src, "ctx": kind, "entry": lv + "*" + ty}))
+    for src in ["()", "", "1", "1.5", '"s"', "true", "(1,2)", "z", "y", "a;", "a", "b", "c", "x", "f(z)", "f(y)", "(z, z)", "1;", "typeof(z)", "if(x, z, y)"]:
+        for ty in TYPES:
+            for lv in "sn":
+                for kind in ("H", "N"):
+                    ops = C12_SETUP + ["dump", "evc %sm%s %s" % (lv, ty, hexs(src)), "ev %sr%s %s" % (lv, ty, hexs(src)), "dump"]
+                    cases.append((G.script(kind, ops), {"kind": "agree", "src": src, "ctx": kind, "entry": lv + "*" + ty}))
     # contexts without variable storage / read-only kinds
     for src in ["a = 1", "a += 1", "1; a = 2", "q = 1; q", "1 + (z = 2)"]:
         for kind in ("N", "E", "EB"):
@@ -1396,7 +1438,7 @@ def c11_oracle(case, out, model_out):
         if d0 != d1:
             return "read-only evaluation of %r changed the context" % m["src"]
         if ro != mut:
-            return "%r has no assignment operator but eval_with_context gives %s and eval_with_context_mut gives %s" % (m["src"], ro, mut)
+            return "%r has no assignment operator but the read-only entry point gives %s and the mutable one gives %s (entry %s)" % (m["src"], ro, mut, m.get("entry"))
         return None
     if m.get("kind") == "nostore":
         ds = [s for s in steps if s.startswith("CTX{")]
@@ -1558,8 +1600,9 @@ def c04_history(rng, length):
             want.append("OK")
         elif k < 0.83:
             f = rng.choice(["f", "a"])
-            ops.append("setfn %s konst:I9" % hexs(f))
-            A.funs[f] = 9
+            kv = rng.choice([7, 8, 9])     # a later set_function of the same name replaces the earlier one
+            ops.append("setfn %s konst:I%d" % (hexs(f), kv))
+            A.funs[f] = kv
             want.append("OK")
         elif k < 0.87:
             b = rng.random() < 0.5
@@ -1572,7 +1615,7 @@ def c04_history(rng, length):
         elif k < 0.97:
             f = rng.choice(["f", "a"])
             ops.append("call %s I1" % hexs(f))
-            want.append("OK I9" if f in A.funs else "ERR FunctionIdentifierNotFound(%s)" % hexs(f))
+            want.append("OK I%d" % A.funs[f] if f in A.funs else "ERR FunctionIdentifierNotFound(%s)" % hexs(f))
         else:
             ops.append("ev srv " + hexs("max(1, 2)"))
             want.append("ERR FunctionIdentifierNotFound(%s)" % hexs("max") if A.off else "OK I2")
@@ -1700,19 +1743,26 @@ def c09_cases(names_builtin, names_other, rng, full):
         for kind in ("H", "N", "E", "EB"):
             for off in ((False, True) if kind in ("H", "N") else (None,)):
                 for userfn in ((False, True, "fail") if kind in ("H", "N") else (False,)):
-                    for var in ((False, True) if kind in ("H", "N") else (False,)):
+                    for var in ((False, True, "first") if kind in ("H", "N") else (False,)):
+                        if var == "first" and not userfn:
+                            continue
                         for post in (("", "clone", "clrf") if kind == "H" else ("",)):
                             if not full and rng.random() < 0.5 and post:
                                 continue
                             setup = []
                             if kind in ("H", "N"):
                                 setup.append("init %s I5" % hexs("x"))
+                                setup.append("init %s T(I7)" % hexs("t1"))
                                 setup.append("setfn %s id" % hexs("wrap"))
+                                if var == "first":     # the variable is bound before the function of the same name
+                                    setup.append("init %s S%s" % (hexs(n), hexs("var")))
                                 if userfn == "fail":
                                     setup.append("setfn %s fail:%s" % (hexs(n), hexs("boom")))
                                 elif userfn:
+                                    if kind == "H":    # a first binding that the second one must replace
+                                        setup.append("setfn %s konst:I111" % hexs(n))
                                     setup.append("setfn %s konst:%s" % (hexs(n), MARK))
-                                if var:
+                                if var is True:
                                     setup.append("init %s S%s" % (hexs(n), hexs("var")))
                                 if off is not None:
                                     setup.append("off %d" % off)
@@ -1723,6 +1773,9 @@ def c09_cases(names_builtin, names_other, rng, full):
                             forms = [("%s(3)" % n, "I3"), ("%s 3" % n, "I3"), ("%s()" % n, "E"), ("%s(3, 4)" % n, "T(I3,I4)"),
                                      ('%s "s"' % n, "S" + hexs("s")), ("%s true" % n, "B1"), ("%s 2.5" % n, "F4004000000000000"),
                                      ("%s x" % n, "I5") if kind in ("H", "N") else ("%s (())" % n, "E")]
+                            if kind in ("H", "N"):
+                                forms.append(("%s t1" % n, "T(I7)"))     # a one-element tuple is passed as it is
+                                forms.append(("%s(t1)" % n, "T(I7)"))
                             if kind in ("H", "N") and post != "clrf":
                                 forms.append(("wrap %s 3" % n, "I3"))
                             ops = list(setup)
@@ -1733,7 +1786,7 @@ def c09_cases(names_builtin, names_other, rng, full):
                                 ops += ["off 0", "off 1"]   # fixed policies: one of the two is refused, nothing changes
                             ops.append("dump")
                             cases.append((G.script(kind, ops), {"kind": "resolution", "name": n, "ctx": kind, "disabled": disabled, "user": has_user,
-                                                              "var": var, "is_builtin": is_b, "forms": forms, "nsetup": len(setup), "post": post}))
+                                                              "var": bool(var), "is_builtin": is_b, "forms": forms, "nsetup": len(setup), "post": post}))
     return cases
 
 
@@ -1868,6 +1921,32 @@ def c14_gen(tier, rng):
         cases.append(("ITER\t" + hexs(src), {"kind": "iter", "src": src,
                                              "want": {"ids": j("WFR"), "vars": j("WR"), "reads": j("R"), "writes": j("W"), "fns": j("F")},
                                              "renamed": G.tree_of_top(renamed)}))
+    # deep nesting: the traversal has no depth limit
+    def deep(kind, d):
+        e = ("var", "z%d" % d)
+        for i in range(d):
+            if kind == "right":
+                e = ("bin", "+", ("var", "a%d" % i), ("paren", e))
+            elif kind == "left":
+                e = ("bin", "*", ("paren", e), ("var", "b%d" % i))
+            elif kind == "neg":
+                e = ("pre", "-", e)
+            elif kind == "call":
+                e = ("call", "f%d" % (i % 3), e)
+            elif kind == "paren":
+                e = ("paren", e)
+            else:
+                e = ("paren", ("tuple", [("var", "t%d" % i), e]))
+        return e
+    for kind in ("right", "left", "neg", "call", "paren", "tuple"):
+        for d in (30, 31, 32, 33, 34, 40, 64, 65, 100, 130) if tier == "quick" else range(20, 260, 3):
+            e = deep(kind, d)
+            src = G.render(G.flatten(e), None, "tight")
+            occ = occurrences(e)
+            j = lambda cls: ",".join(hexs(nm) for c, nm in occ if c in cls)
+            prefix = {"R": "ivr", "W": "ivw", "F": "if"}
+            cases.append(("ITER\t" + hexs(src), {"kind": "iter", "src": src, "want": {"ids": j("WFR"), "vars": j("WR"), "reads": j("R"), "writes": j("W"), "fns": j("F")},
+                                                 "renamed": G.tree_of_top(rename_ast(e, lambda c, nm: prefix[c] + nm))}))
     # hand-built shapes: non-last children with grandchildren, empty parenthesis nodes, n-ary sequence nodes
     for src in ["(a + b) * (c + d) + e", "f((a, b), (c, (d, e))) + g()", "((), (), a)", "a; (b; (c; d)); e", "(a = b) + (c = d)",
                 "f g h x", "-(-(-a))", "x = y = z = w", "(a, b, c, d, e, f, g)", "a + (b)", "((((a))))", "f()", "(a; ; b)"]:
@@ -1988,6 +2067,19 @@ PLAIN_WORDS = ["a", "abc", "x1", "_", "e", "e5", "E", "x", "0x", "0xg", "1e", "1
                "e.", "1.e", "0x1g", "0X10", "９"]
 
 
+def classify_word(w):
+    """what a maximal run of literal characters denotes, as a precompiled leaf (reference reading of the literal grammar)"""
+    if re.fullmatch(r"[0-9]+", w):
+        return "Const:I%d" % int(w) if int(w) <= G.I64_MAX else "Const:F%016x" % f_bits(float(w))
+    if re.fullmatch(r"0x[0-9a-fA-F]+", w) and int(w[2:], 16) <= G.I64_MAX:
+        return "Const:I%d" % int(w[2:], 16)
+    if re.fullmatch(r"([0-9]+\.?[0-9]*|\.[0-9]+)([eE][0-9]+)?", w):
+        return "Const:F%016x" % f_bits(float(w))
+    if w in ("true", "false"):
+        return "Const:B%d" % (w == "true")
+    return "Read:" + hexs(w)
+
+
 def c06_gen(tier, rng):
     cases = []
 
@@ -2057,6 +2149,15 @@ def c06_gen(tier, rng):
         tree(w, "OK (RootNode (Read:%s))" % hexs(w))
     for w in SPECIAL_WORDS:
         tree(w, "OK (RootNode (Read:%s))" % hexs(w), {"special_float_word": True})
+    # random words over the characters that matter to the literal grammar, against the reference classification
+    words = set(["0x0x1f", "0x0x", "0X0x1", "00x1", "0x00x1", "0x0x0x7", "x0x1", "0xx1", "0x_1", "0x1_", "1e1e1", "1.e1", ".1e1", "1..", ".", "0.", ".0", "0e0",
+                 "truee", "ttrue", "falsee", "true1", "0xtrue", "0xfalse", "0xe", "0xE1", "1E", "E1", "0e", "00", "0x0", "0x00"])
+    for _ in range(n // 2):
+        words.add("".join(rng.choice("00119xXeE..afgF_nt") for _ in range(rng.randint(1, 7))))
+    for w in sorted(words):
+        if w.lower() in ("inf", "infinity", "nan"):
+            continue
+        tree(w, "OK (RootNode (%s))" % classify_word(w))
     return cases
 
 
@@ -2345,6 +2446,10 @@ def c15_special(tier, rng, hooks):
     for _ in range(200 if tier == "quick" else 3000):
         raw = G.rand_expr(rng, rng.randint(1, 5), allow_asg=False)
         srcs.append(G.render(G.flatten(G.parenthesize(raw)), None, "space"))
+    # deep trees: per-evaluation bookkeeping (depth, scratch space) must not be shared between concurrent evaluations
+    for d in (100, 300, 600, 900):
+        srcs += ["- " * d + "a", "(" * d + "a + b" + ")" * d, "f(" * (d // 2) + "s" + ")" * (d // 2), "!" * d + "true",
+                 "a + (" * d + "a" + ")" * d]
     for i, src in enumerate(srcs):
         progs.append("%d\t%s" % (i, hexs(src)))
     os.makedirs(L.WORK, exist_ok=True)
